@@ -9,7 +9,8 @@ EXPLANATION = (
     "D2 Distfile->distfiles / Patchfile->patchfiles in insert, update_size, update_checksum, find_entry (sibling agreement), and the name that is classified is the name that keys the map; "
     "D3 the two maps are insertion-ordered (IndexMap/Vec), existing entries updated in place (get_mut; checksums appended with push), new entries inserted under the line's own name; "
     "D4 line fields are split on bytes (no u8-as-char Unicode predicate); "
-    "D5 Line::from_bytes: unknown algorithm / unparsable size / malformed name -> Line::None; Distinfo::from_bytes: Line::None has no effect, Size->update_size, Checksum->update_checksum with the line's own fields")
+    "D5 Line::from_bytes: unknown algorithm / unparsable size / malformed name -> Line::None; Distinfo::from_bytes: Line::None has no effect, Size->update_size, Checksum->update_checksum with the line's own fields; "
+    "D5-LINES the lines handed to Line::from_bytes are the pieces of a byte-level split of the input at '\\n' (no UTF-8 line reader, no adapter in between) and the loop ends only by exhaustion")
 NOT_DECIDED = [
     "field splitting semantics for arbitrary interleavings (slice::split is std's)",
     "observed, not claimed: a bare `SHA1` line or `SHA1 (f) x y` is recorded as a checksum (field 2 and the field count are never checked)",
@@ -245,3 +246,32 @@ def run(ctx):
                         ok = ok and idx == want_idx
             ctx.check(ok, "D5-APPLY", DFB, "line=%s" % v, "Line::%s -> %s" % (v, want or "no effect"),
                       "Line::%s is not handled as `%s` with the line's own fields" % (v, want or "no effect"), fn_span(body))
+        # D5-LINES: every line of the input reaches Line::from_bytes as raw bytes: the lines are the pieces of a byte-level split of the
+        # input at b'\n' (no UTF-8 decoding, no adapter that can end or thin the stream), and the loop ends only when the pieces are exhausted
+        lfb = [e for p in paths for e in p.events if e.kind == "call" and e.path == LFB]
+        ctx.floor("D5-LINES", DFB, "Line::from_bytes call sites reached", len({e.bb for e in lfb}), 1)
+        seen_bb = set()
+        for e in lfb:
+            if e.bb in seen_bb:
+                continue
+            seen_bb.add(e.bb)
+            a = strip_refs(e.args[0])
+            nx = a[1][1] if isinstance(a, tuple) and a[0] == "field" and a[2] == 0 and isinstance(a[1], tuple) and a[1][0] == "downcast" and a[1][2] == "Some" else None
+            okn = is_call(nx, "slice::Split<'a, T, P> as std::iter::Iterator>::next", "slice::Split as std::iter::Iterator>::next")
+            sp_calls = find_calls(nx, "[T]>::split") if okn else []
+            oks = bool(sp_calls) and strip_refs(call_args(sp_calls[0])[0]) == ("param", 1)
+            okc = False
+            if oks:
+                cl = call_args(sp_calls[0])[1]
+                ck = cl[2] if isinstance(cl, tuple) and cl[0] == "agg" and cl[1] == "closure" else None
+                cps = ctx.paths(ck) if ck else None
+                okc = bool(cps) and all(isinstance(cp.end[1], tuple) and cp.end[1][0] == "binop" and cp.end[1][1] == "Eq" and 10 in (const_int(cp.end[1][2]), const_int(cp.end[1][3])) for cp in ret_paths(cps))
+            # nothing but into_iter between the split and the loop
+            direct = okn and all(is_call(s_, "IntoIterator>::into_iter", "[T]>::split", "Iterator>::next") for s_ in subterms(nx) if is_call(s_))
+            ctx.check(okn and oks and okc and direct, "D5-LINES", DFB, "line-source", "lines = bytes.split(|c| *c == b'\\n'), passed to Line::from_bytes as raw bytes",
+                      "the argument of Line::from_bytes is %s: lines must be the pieces of a byte-level split of the input at '\\n' (a UTF-8 line reader or an adapter that stops at an error drops recognised lines)" % term_str(a)[:200],
+                      body.span_of(e.bb))
+        rets = ret_paths(paths)
+        exh = [p for p in rets if any(c.term[0] == "discr" and is_call(c.term[1], "Iterator>::next") and c.fact == ("eq", 0) for c in p.conds())]
+        ctx.check(bool(rets) and len(exh) == len(rets), "D5-LINES", DFB, "exhaustive", "returns only after the line iterator is exhausted",
+                  "Distinfo::from_bytes can return before every line was looked at (%d of %d returning paths leave the loop early)" % (len(rets) - len(exh), len(rets)), fn_span(body), nontrivial=False)
